@@ -412,6 +412,8 @@ def server_diagnostics(ctx, ws, model, open_close_first=()):
             srv.did_close(ws.abs(rel))
             srv.pump(0.05)
         for rel in ws.py_files():
+            if rel in open_close_first:
+                continue          # stays closed
             f = ws.abs(rel)
             before = srv.seq
             srv.did_open(f, ws.files[rel])
